@@ -228,3 +228,56 @@ func sortUints(l []uint) {
 		}
 	}
 }
+
+// A reception marker (the record which tells a retransmitted exactly-once
+// PUBLISH from a new one) is damaged while the client runs; then the broker
+// retransmits. The damaged record must be reported — ReadSlices returns an
+// error which is no BigMessage — and not passed over in silence: taking it
+// for absent delivers the message a second time without a trace.
+func TestC15MarkerDamagedLive(t *testing.T) {
+	rapid.Check(t, func(rt *rapid.T) {
+		h := newH(rt, "C15", sim.Options{Config: baseConfig()})
+		defer h.Shutdown(5 * time.Second)
+		h.appStep("connect")
+		m := h.brokerSend(2, rapid.IntRange(0, 30).Draw(rt, "len"))
+		if m == nil {
+			return
+		}
+		h.App.Step() // the message
+		h.SettleReader("message")
+		h.App.Step() // marker saved, PUBREC out; the PUBREL is withheld
+		h.SettleReader("PUBREC")
+		key := uint(m.ID) | 0x10000
+		content := h.Store.Content()
+		v, ok := content[key]
+		if !ok || len(v) == 0 {
+			h.Failf("VERIF-INFRA: no marker record %#x after the PUBREC", key)
+		}
+		d := append([]byte(nil), v...)
+		if rapid.IntRange(0, 3).Draw(rt, "truncate") == 0 {
+			d = d[:rapid.IntRange(0, len(d)-1).Draw(rt, "cutTo")]
+			h.Act("marker %#x cut from %d to %d bytes", key, len(v), len(d))
+		} else {
+			pos, x := rapid.IntRange(0, len(d)-1).Draw(rt, "pos"), byte(rapid.IntRange(1, 255).Draw(rt, "xor"))
+			d[pos] ^= x
+			h.Act("marker %#x altered at byte %d with %#02x", key, pos, x)
+		}
+		h.Store.Damage(key, d)
+		c := h.Current()
+		if c == nil || !c.Accepted() {
+			return
+		}
+		before := h.App.NResults()
+		var dup []byte
+		h.WithLock(func() { dup = h.Broker.PublishBytes(m, c.N) })
+		h.Act("the broker retransmits %#04x", m.ID)
+		c.Send(dup)
+		h.MustPoll("ReadSlices returning on the retransmission", func() bool { return !h.App.InCall() || h.App.NResults() > before })
+		noPanics(h)
+		r := h.App.Result(before)
+		if r.Err == nil || r.Big {
+			h.Failf("marker %#x was damaged while the client ran; on the retransmission ReadSlices returned %s: the damage is not reported and the message is delivered a second time", key, r)
+		}
+		stats.For("C15").Case(strings.Join(h.Script, "\n"), true, "marker-damaged-while-running")
+	})
+}
